@@ -31,6 +31,10 @@ def generate(seed, tier, opts):
     th, op = cards.gen_cards(d, real=real, max_targets=3, xgrid_max=8 if mode in ("integration", "fidelity") else 4)
     if real and mode != "runner-real":
         op["mugrid"] = op["mugrid"][:1]
+        if len(op["xgrid"]) > 4 and th["order"][0] > 1:
+            # larger grids only with the (cheap) LO kernels
+            th["order"] = [1, 0]
+            th["matching_order"] = [0, 0]
     if mode == "runner-real" and th["order"][0] > 1:
         op["mugrid"] = op["mugrid"][:2]  # bound the cost of interpreted NLO kernels
     case = dict(seed=int(seed), mode=mode, theory=th, operator=op)
